@@ -118,6 +118,17 @@ def run(chk, repo, tier):
     A4 = chk.rule('A4', 'operator precedence chain and associativity == Fortran', floor=9)
     A5 = chk.rule('A5', 'LALR-accepted token sentences of the remaining record grammars are accepted when spelled out '
                         '(lexer/parser table cross-check; theta/omega are checked under C04)', floor=300)
+    A6 = chk.rule('A6', 'no read of a CompartmentalSystem copy after its builder was mutated (stale snapshot) in the '
+                        '$DES -> compartment recovery', floor=1)
+    from sa import snapshot
+    snapshot.run_rule(chk, A6, repo, only={'pharmpy.model.statements.to_compartmental_system'})
+    A7 = chk.rule('A7', '$OMEGA block: correlation-to-covariance form agrees with the SD flag and precedes the squaring of '
+                        'the diagonal; CHOLESKY is L L^T of the row-wise lower triangle', floor=5)
+    A8 = chk.rule('A8', 'block IF: fall-through is decided per symbol from the recorded branches; branches that do not '
+                        'assign the symbol are accounted for', floor=2)
+    from rules import C01b
+    C01b.run_a7(chk, A7, repo)
+    C01b.run_a8(chk, A8, repo)
     from rules.C04 import run_a5
     run_a5(chk, A5, ['abbreviated_record.lark', 'code_record.lark', 'data_record.lark', 'option_record.lark',
                      'simulation_record.lark'])
